@@ -326,6 +326,58 @@ func checkC13(c *Ctx, r *Report) {
 	r.rule("C13.R2", "Heartbeat: lastHeartbeat refresh and NONE reply guarded by member present ∧ generation equal ∧ state==Stable", 2)
 	r.rule("C13.R3", "SyncGroup: NONE reply guarded by generation equal ∧ member present", 1)
 	r.rule("C13.R4", "who-may-write groupState.generationID: startRebalance (+1), restoreGroupState", 2)
+	r.rule("C13.R8", "a member id is never issued twice: every key JoinGroup adds to groupState.members for a new member comes from a random source (math/rand or crypto/rand), not from state that starts over when the group is reaped, recreated or restored — (id, generation) is the whole of a member's credential, and generations start over too", 1)
+	r.Explanation += " (R8) the id under which JoinGroup registers a new member derives from a math/rand or crypto/rand call (an id computed from per-incarnation state would be issued again after the group is recreated, and a stale member's (id, generation) would pass the fence)."
+	if jg := needFn(m, r, "C13.R8", pkgBrokerLib, "(*GroupCoordinator).JoinGroup"); jg != nil {
+		n := 0
+		for _, b := range jg.Blocks {
+			for _, in := range b.Instrs {
+				mu, ok := in.(*ssa.MapUpdate)
+				if !ok {
+					continue
+				}
+				if _, f, _, okf := fieldOf(mu.Map); !okf || f != "members" {
+					continue
+				}
+				// only registrations of a fresh member (the stored value is a new memberState)
+				if _, isAlloc := strip(mu.Value).(*ssa.Alloc); !isAlloc {
+					continue
+				}
+				n++
+				key := "JoinGroup registers a new member under a random id"
+				random := false
+				backSlice(mu.Key, true, func(x ssa.Value) {
+					if c, ok := x.(*ssa.Call); ok {
+						cn := calleeName(&c.Call)
+						if strings.HasPrefix(cn, "math/rand.") || strings.HasPrefix(cn, "math/rand/v2.") || strings.HasPrefix(cn, "crypto/rand.") || strings.HasPrefix(cn, "(*math/rand.Rand).") {
+							random = true
+						}
+						if f, _ := calleeOf(&c.Call); f != nil && f.Blocks != nil && !random {
+							// one level into a local helper such as newMemberID
+							for _, fb := range f.Blocks {
+								for _, fin := range fb.Instrs {
+									if c2, ok := fin.(*ssa.Call); ok {
+										cn2 := calleeName(&c2.Call)
+										if strings.HasPrefix(cn2, "math/rand.") || strings.HasPrefix(cn2, "math/rand/v2.") || strings.HasPrefix(cn2, "crypto/rand.") || strings.HasPrefix(cn2, "(*math/rand.Rand).") {
+											random = true
+										}
+									}
+								}
+							}
+						}
+					}
+				})
+				if random {
+					r.ok("C13.R8", key, m.Pos(mu.Pos()), "")
+				} else {
+					r.viol("C13.R8", key, m.Pos(mu.Pos()), "the new member's id is "+describe(mu.Key)+" — no random source behind it: ids computed from group state repeat once that state starts over (group reaped and recreated, coordinator failover), and a stale member holding the same (id, generation) passes the fence")
+				}
+			}
+		}
+		if n == 0 {
+			r.unresolved("C13.R8", "JoinGroup: registration of a new member", "no members[id] = &memberState{} found")
+		}
+	}
 	r.rule("C13.R5", "group snapshots are written to the store in the order the state changed: every snapshot write (PutConsumerGroup, and the delete-when-empty in the same helper) runs with the coordinator's mutex held", 2)
 	checkPersistUnderLock(m, r, "C13.R5")
 	fence := Guard{cl(atomStateNonNil()), cl(atomMemberPresent()), cl(atomGenerationEqual())}
